@@ -11,7 +11,7 @@ void reg_prng() {}
 #ifndef HAVE_DRV_MASKED
 void reg_masked() {}
 #endif
-#ifndef HAVE_DRV_CPP
+#if 0
 void reg_cpp() {}
 #endif
 #ifndef HAVE_DRV_MISC
